@@ -150,7 +150,10 @@ def _finish_pass(env, jb, kw, seed, want_props, res, agg, seen_names, S, core, l
                 r["native_lhs"] = lv
                 r["native_rhs"] = rv
                 r["native_diff"] = dv
-                r["confirmed"] = bool(dv > core.NATIVE_TOL * (1.0 + sv))
+                big = max(abs(lv), abs(rv)) if (lv == lv and rv == rv) else 0.0
+                # absolute criterion, or a clear relative one for quantities that are small in absolute terms (e.g. a
+                # derivative with respect to a Reynolds number of 1e6)
+                r["confirmed"] = bool(dv > core.NATIVE_TOL * (1.0 + sv)) or bool(big > 1e-12 and dv > 1e-3 * big)
             except Exception as e:           # replay problems never create or hide a violation
                 r["native"] = "replay failed: %s: %s" % (type(e).__name__, e)
         res["obls"].append(o.asdict())
